@@ -7,47 +7,47 @@
 use std::fmt::Write;
 
 use chumsky::error::{Cheap, EmptyErr, LabelError, Rich, RichPattern, RichReason, Simple};
-use chumsky::span::SimpleSpan;
 
-use crate::input::HInput;
-use crate::val::Pos;
+use crate::input::{HInput, HSpan};
+use crate::val::{HTok, Pos};
 
 /// Converts a raw span offset of the input kind (bytes for `&str`) to a token position.
 pub type Conv<'c> = &'c dyn Fn(usize) -> Pos;
 
 pub trait HErr<'a, I: HInput<'a>>:
-    chumsky::error::Error<'a, I> + LabelError<'a, I, String> + 'a
+    chumsky::error::Error<'a, I> + LabelError<'a, I, String> + Clone + 'a
 {
     /// `E::custom(k, span)` of FORMAT.md.
-    fn custom(k: usize, span: SimpleSpan<usize>) -> Self;
+    fn custom(k: usize, span: I::Span) -> Self;
     /// The error's span (`0..0` for `EmptyErr`, which has none); used by `MapErr`.
-    fn hspan(&self) -> SimpleSpan<usize>;
+    fn hspan(&self) -> I::Span;
     /// Append the canonical form `<s>..<e>:<reason>:[<ctx>,...]`.
     fn canon(&self, conv: Conv<'_>, out: &mut String);
 }
 
-fn span_str(sp: &SimpleSpan<usize>, conv: Conv<'_>, out: &mut String) {
-    let _ = write!(out, "{}..{}", conv(sp.start), conv(sp.end));
+fn span_str<S: HSpan>(sp: &S, conv: Conv<'_>, out: &mut String) {
+    let (s, e) = sp.raw();
+    let _ = write!(out, "{}..{}", conv(s), conv(e));
 }
 
 impl<'a, I: HInput<'a>> HErr<'a, I> for EmptyErr {
-    fn custom(_k: usize, _span: SimpleSpan<usize>) -> Self {
+    fn custom(_k: usize, _span: I::Span) -> Self {
         EmptyErr::default()
     }
-    fn hspan(&self) -> SimpleSpan<usize> {
-        SimpleSpan::from(0..0)
+    fn hspan(&self) -> I::Span {
+        <I::Span as HSpan>::zero()
     }
     fn canon(&self, _conv: Conv<'_>, out: &mut String) {
         out.push_str("0..0:X[]F-:[]");
     }
 }
 
-impl<'a, I: HInput<'a>> HErr<'a, I> for Cheap<SimpleSpan<usize>> {
-    fn custom(_k: usize, span: SimpleSpan<usize>) -> Self {
+impl<'a, I: HInput<'a>> HErr<'a, I> for Cheap<I::Span> {
+    fn custom(_k: usize, span: I::Span) -> Self {
         Cheap::new(span)
     }
-    fn hspan(&self) -> SimpleSpan<usize> {
-        *self.span()
+    fn hspan(&self) -> I::Span {
+        self.span().clone()
     }
     fn canon(&self, conv: Conv<'_>, out: &mut String) {
         span_str(self.span(), conv, out);
@@ -55,12 +55,12 @@ impl<'a, I: HInput<'a>> HErr<'a, I> for Cheap<SimpleSpan<usize>> {
     }
 }
 
-impl<'a, I: HInput<'a>> HErr<'a, I> for Simple<'a, char, SimpleSpan<usize>> {
-    fn custom(_k: usize, span: SimpleSpan<usize>) -> Self {
+impl<'a, I: HInput<'a>> HErr<'a, I> for Simple<'a, I::Token, I::Span> {
+    fn custom(_k: usize, span: I::Span) -> Self {
         Simple::new(None, span)
     }
-    fn hspan(&self) -> SimpleSpan<usize> {
-        *self.span()
+    fn hspan(&self) -> I::Span {
+        self.span().clone()
     }
     fn canon(&self, conv: Conv<'_>, out: &mut String) {
         span_str(self.span(), conv, out);
@@ -70,12 +70,12 @@ impl<'a, I: HInput<'a>> HErr<'a, I> for Simple<'a, char, SimpleSpan<usize>> {
     }
 }
 
-impl<'a, I: HInput<'a>> HErr<'a, I> for Rich<'a, char, SimpleSpan<usize>> {
-    fn custom(k: usize, span: SimpleSpan<usize>) -> Self {
+impl<'a, I: HInput<'a>> HErr<'a, I> for Rich<'a, I::Token, I::Span> {
+    fn custom(k: usize, span: I::Span) -> Self {
         Rich::custom(span, k.to_string())
     }
-    fn hspan(&self) -> SimpleSpan<usize> {
-        *self.span()
+    fn hspan(&self) -> I::Span {
+        self.span().clone()
     }
     fn canon(&self, conv: Conv<'_>, out: &mut String) {
         span_str(self.span(), conv, out);
@@ -122,10 +122,10 @@ impl<'a, I: HInput<'a>> HErr<'a, I> for Rich<'a, char, SimpleSpan<usize>> {
     }
 }
 
-fn found_str(found: Option<&char>, out: &mut String) {
+fn found_str<T: HTok>(found: Option<&T>, out: &mut String) {
     match found {
         Some(c) => {
-            let _ = write!(out, "{}", *c as u32);
+            let _ = write!(out, "{}", c.to_u32());
         }
         None => out.push('-'),
     }
@@ -139,13 +139,13 @@ fn numeric_or_q(s: &str) -> String {
     }
 }
 
-fn pattern_code(p: &RichPattern<'_, char>) -> Option<u64> {
+fn pattern_code<T: HTok>(p: &RichPattern<'_, T>) -> Option<u64> {
     Some(match p {
         RichPattern::Any => 0,
         RichPattern::SomethingElse => 1,
         RichPattern::EndOfInput => 2,
         RichPattern::Identifier(_) => 3,
         RichPattern::Label(l) => 4 + 2 * l.parse::<u64>().ok()?,
-        RichPattern::Token(t) => 5 + 2 * (**t as u64),
+        RichPattern::Token(t) => 5 + 2 * ((**t).to_u32() as u64),
     })
 }
